@@ -305,6 +305,12 @@ def reserved_items(st):
     cand += [[DEFX, [P1, P2]], [ON, [DEFX, [P1, P2]], [G]], [DEFX, [G]], [B, [DEFX, [P1, P2]]], Leaf(raw="Def/Nope"),
              [Leaf(raw="Def/Nope"), B], Leaf(raw="Def/Pl/3")]
 
+    # one value text under tags of different value classes (legal for the text class, not for the name class)
+    if m.by_short.get("description") is not None and m.by_short.get("label") is not None:
+        cand += [Leaf(raw="Description/Left side"), Leaf(raw="Label/Left side"), [Leaf(raw="Label/Left side"), B]]
+    # several misplaced reserved tags in one nested group (their order inside the group is free)
+    cand += [[R, [ON, EC]], [R, [DUR, EC, OFF]], [ON, EC], [B, [IN, EC, DLY]]]
+
     def complete(x):
         return all(complete(y) if isinstance(y, list) else y is not None for y in x)
     return items + [c for c in cand if isinstance(c, Leaf) or complete(c)]
